@@ -201,8 +201,15 @@ def check_case(case, rnd):
         init = {n: ("init", n) for n in names}
         init[spn] = sp0
         m = Mach(init, ws, rnd)
-        run_tokens(m, tp, names, spn)
+        try:
+            run_tokens(m, tp, names, spn)
+        except (TypeError, KeyError):
+            errs.append("the prologue computes the stack pointer or an address from a value it never produced")
+            break
         sp1, wp = m.r[spn], set(m.W)
+        if not isinstance(sp1, int):
+            errs.append("the prologue leaves a stack pointer that is not derived from the entry stack pointer")
+            break
         if adj is not None and sp0 - sp1 != adj:
             errs.append("stack_adjustment does not equal the real displacement")
         if case["align"] and fam == "x86" and sp1 % align:
@@ -223,7 +230,11 @@ def check_case(case, rnd):
         for a in range(sp1 - 64, sp1):
             m.mem[a] = ("bodyjunk", a)
         m.R, m.W = set(), set()
-        run_tokens(m, te, names, spn)
+        try:
+            run_tokens(m, te, names, spn)
+        except (TypeError, KeyError):
+            errs.append("the epilogue computes the stack pointer or an address from a slot the prologue did not write")
+            break
         if m.r[spn] != sp0:
             errs.append("stack pointer not restored")
         for r in saved_alloc:
